@@ -183,3 +183,20 @@ W void w_set_unbound(int32_t a, unsigned which, Hist* h) {   // [a]; then add an
   h->ok_mask = ok; observe_arr(doc, h);
   h->frees = doc[1].isNull() ? 1 : 0; h->calls_before = doc[1].is<JsonArrayConst>() ? 1 : 0; h->calls_after = doc[1].is<JsonObjectConst>() ? 1 : 0;
 }
+// ---- custom writer that accepts only `room` bytes (C02): the returned count is the number of bytes the sink took
+struct BoundedSink { char* p; size_t room; size_t taken; size_t calls;
+  size_t write(uint8_t c) { calls++; if (!room) return 0; *p++ = char(c); room--; taken++; return 1; }
+  size_t write(const uint8_t* s, size_t n) { calls++; size_t k = n < room ? n : room; for (size_t i = 0; i < k; i++) *p++ = char(s[i]); room -= k; taken += k; return k; } };
+W void w_ser_custom(int32_t i, const char* p, size_t n, char* out, size_t room, Ser* s) {   // [i,"p"]
+  arena.reset(); JsonDocument doc(&arena); doc.add(i); doc.add(JsonString(p, n, JsonString::Copied));
+  BoundedSink k{out, room, 0, 0}; s->n = serializeJson(doc, k); s->measure = measureJson(doc); s->npretty = k.taken; s->mpretty = k.calls;
+}
+W void w_ser_raw_only(const char* p, size_t n, char* out, size_t cap, Ser* s) { arena.reset(); JsonDocument doc(&arena); doc.set(serialized(p, n)); s->n = serializeJson(doc, out, cap); s->measure = measureJson(doc); }
+// ---- swap / move of documents carries the overflowed() flag with the content (C05)
+W void w_swap_overflow(int64_t v, int32_t a, unsigned how, Hist* h1, Hist* h2) {
+  arena.reset(1u);   // the very first allocator call fails: d1.set(v) cannot get its extension slot
+  JsonDocument d1(&arena), d2(&arena); bool ok1 = d1.set(v); bool ok2 = d2.set(a);
+  h1->ok_mask = ok1; h2->ok_mask = ok2; h1->calls_before = d1.overflowed(); h2->calls_before = d2.overflowed();
+  if (how == 0) swap(d1, d2); else { JsonDocument t(detail::move(d1)); d1 = detail::move(d2); d2 = detail::move(t); }
+  h1->overflowed = d1.overflowed(); h2->overflowed = d2.overflowed(); h1->size = d1.is<int32_t>(); h1->e[0] = d1.as<int32_t>(); h2->size = d2.isNull();
+}
